@@ -442,7 +442,14 @@ func checkTACapacity(e *executor, r *stepResult) *vfkit.Violation {
 		}
 	}
 	// ledger + subtree capacity
+	isolatedHW := e.h.topo.IsolatedCPUs()
 	for _, p := range v.snap.Pools {
+		// shared capacity is counted per CPU of the shared set: a kernel-isolated CPU
+		// (handed out whole only, never shared) in it is capacity that does not exist
+		if x := set(p.FreeSharable).Intersect(isolatedHW); !x.Empty() {
+			return viol(P, "shared capacity is 1000 mCPU per CPU really left in the shared set", "isolated-cpu-in-shared-set",
+				"after %s: pool %s has kernel-isolated CPUs %s in its shared set %s", r.Desc, p.Name, x, p.FreeSharable)
+		}
 		localShared, localReserved := 0, 0
 		for _, g := range v.snap.Grants {
 			if g.Pool != p.Name {
